@@ -574,7 +574,8 @@ fn witnesses() -> Vec<(String, Value)> {
 
 fn gen(rng: &mut Rng, tier: &str) -> Vec<(String, Value)> {
     let thorough = tier == "thorough";
-    let mut cases = witnesses();
+    // the witnesses of the corrected defects are replayed from corpus/C25/updates.json (written from witnesses())
+    let mut cases: Vec<(String, Value)> = if std::env::var("C25_EMIT_WITNESSES").is_ok() { witnesses() } else { Vec::new() };
     let mut hists = fixed_histories();
     let nrand = if thorough { 12 } else { 2 };
     for k in 0..nrand { let h = random_history(rng, 10 + k, 5); hists.push(h); }
